@@ -190,7 +190,7 @@ def worker_main(a):
         if time.monotonic() > deadline:
             ctx.truncated = True
             break
-        run_one_case(mod, ctx, i)
+        run_one_case(mod, ctx, i, wall_s=getattr(mod, 'CASE_WALL', {}).get(ctx.tier, 30))
     if hasattr(mod, "finish"):
         try:
             mod.finish(ctx)
